@@ -2,6 +2,7 @@ package main
 
 import (
 	"fmt"
+	"os"
 	"go/token"
 	"go/types"
 	"sort"
@@ -187,9 +188,6 @@ func (fg *FnGen) atCallGhosts(name string, args []*Val, res *Val, pos token.Pos)
 			continue
 		}
 		comp, ok := fg.ghosts[ac.Target]
-		if !ok {
-			panic(unsupported("unknown ghost variable " + ac.Target))
-		}
 		env := fg.env(fg.cur, fg.entry, nil)
 		fg.bindCallArgs(env, args)
 		env.atBlock = fg.curBlock
@@ -204,8 +202,36 @@ func (fg *FnGen) atCallGhosts(name string, args []*Val, res *Val, pos token.Pos)
 			}
 		}
 		v := fg.evalC(ac.Clause.Expr, env)
-		fg.set(comp, v.one())
+		if ok {
+			fg.set(comp, v.one())
+			continue
+		}
+		// ghost field lvalue
+		te, err := parseCExpr(ac.Target)
+		if err != nil {
+			panic(unsupported("bad ghost target " + ac.Target))
+		}
+		l := fg.evalLoc(te, env)
+		if !strings.Contains(l.Prefix, ".$") {
+			panic(unsupported("at-call ghost assignment to a non-ghost location " + ac.Target))
+		}
+		fg.ghostFieldWriteCheck(l, pos)
+		fg.store(l, v, pos)
 	}
+}
+
+// ghostFieldWriteCheck: a verified function may only move permissions it declares (modifies x.perm).
+func (fg *FnGen) ghostFieldWriteCheck(l *Loc, pos token.Pos) {
+	if fg.c == nil {
+		return
+	}
+	comp := "H:" + l.Prefix
+	for _, w := range fg.GW {
+		if w.comp == comp {
+			return
+		}
+	}
+	fg.oblige("ghostframe", l.Prefix, TFalse, pos, "ghost field "+l.Prefix+" is changed but the contract does not declare it in modifies")
 }
 
 func (fg *FnGen) bindCallArgs(env *CEnv, args []*Val) {
@@ -292,9 +318,15 @@ func (fg *FnGen) applyContract(con *Contract, name string, names []string, args 
 			continue
 		}
 		if con.ModAll {
-			continue
+			// non-heap entries (lock ownership, ghost fields) still apply
+			if !modMentionsNonHeap(m, con, fg) {
+				continue
+			}
 		}
 		for _, w := range fg.evalMod(m, mkEnv(pre, pre)) {
+			if isGhostFieldComp(w.comp) {
+				fg.ghostFieldWriteCheck(&Loc{Prefix: strings.TrimPrefix(w.comp, "H:")}, pos)
+			}
 			fg.havocEntry(w, pos)
 		}
 	}
@@ -411,6 +443,9 @@ func (fg *FnGen) uncontractedCall(cc *ssa.CallCommon, fn *ssa.Function, name str
 	switch {
 	case fn != nil && fg.g.inRepo(fnPkgPath(fn)):
 		ws := fg.g.writeSetOf(fn)
+		if os.Getenv("GOVC_DEBUG_WS") != "" && fg.pass == 2 {
+			fmt.Fprintf(os.Stderr, "WS %s in %s: all=%v allEvents=%v comps=%v why=%v\n", name, fg.key, ws.all, ws.allEvents, sortedKeys(ws.comps), ws.why)
+		}
 		if ws.all {
 			if !fg.modAll {
 				fg.oblige("frame", "call."+name, TFalse, pos, "callee "+name+" has no contract and may modify anything")
@@ -1300,4 +1335,28 @@ func closureIsSimple(fn *ssa.Function, g *Gen) bool {
 		}
 	}
 	return true
+}
+
+func modMentionsNonHeap(m CExpr, con *Contract, fg *FnGen) bool {
+	src := m.cstr()
+	if strings.HasPrefix(src, "held(") {
+		return true
+	}
+	if strings.HasPrefix(src, "allof(") {
+		for _, d := range fg.g.cs.Decls {
+			if d.Kind == "ghostfield" && len(d.Args) >= 1 && src == "allof("+d.Args[0]+")" {
+				return true
+			}
+		}
+		return false
+	}
+	for _, d := range fg.g.cs.Decls {
+		if d.Kind == "ghostfield" && len(d.Args) >= 1 {
+			tf := d.Args[0]
+			if k := strings.LastIndex(tf, "."); k > 0 && strings.HasSuffix(src, "."+tf[k+1:]) {
+				return true
+			}
+		}
+	}
+	return false
 }
